@@ -3,6 +3,7 @@ package main
 import (
 	"fmt"
 	"os"
+	"strings"
 	"time"
 
 	"github.com/aml-org/amf-custom-validator/pkg"
@@ -63,6 +64,39 @@ validations:
         lessThanProperty: other.b1
 `
 
+// the prefix and local names the checks themselves use, bound to OTHER namespaces: the api-extension namespace (whose
+// properties are traversed differently), a namespace that extends the one the checks use, and one that is a prefix of it
+const warmupShadowTmpl = `#%%Validation Profile 1.0
+profile: warmup binding the checks' own prefix elsewhere
+prefixes:
+  ex: %s
+  apiExt: http://warmup.invalid/not-the-extension-namespace#
+violation:
+  - w
+validations:
+  w:
+    targetClass: ex.T
+    message: "{{ex.p}} {{ex.q}}"
+    propertyConstraints:
+      ex.p / ex.q | ex.r^:
+        minCount: 1
+      ex.child / ex.other:
+        maxCount: 2
+      ex.a1 | ex.a2 | ex.a3 | ex.a4:
+        minCount: 1
+      ex.b1 / ex.b2:
+        minCount: 1
+      ex.num | ex.str | ex.name | ex.p1 | ex.p2:
+        minCount: 1
+      apiExt.owner / ex.name:
+        minCount: 1
+      ex.C | ex.Other | ex.T:
+        maxCount: 5
+`
+
+// a text that is not JSON, longer than any read buffer, whose error is found in its first bytes
+var warmupLongGarbage = "#%RAML 1.0\ntitle: not a JSON document\n" + strings.Repeat("description: this text is not JSON-LD and must never be remembered by anything\n", 40)
+
 const warmupOk = `#%Validation Profile 1.0
 profile: warmup
 prefixes:
@@ -106,13 +140,16 @@ func warmup() {
 	done := make(chan struct{})
 	go func() {
 		defer close(done)
-		for _, prof := range []string{warmupRebind, warmupUndeclared, "", "a: [b", "profile: x\nviolation: [v]\nvalidations:\n  v:\n    targetClass: nope.T\n    propertyConstraints:\n      nope.p:\n        minCount: 1\n",
+		for _, prof := range []string{warmupRebind, warmupUndeclared,
+			fmt.Sprintf(warmupShadowTmpl, "http://a.ml/vocabularies/api-extension#"),
+			fmt.Sprintf(warmupShadowTmpl, "http://example.org/ns#deeper/"),
+			fmt.Sprintf(warmupShadowTmpl, "http://example.org/"), "", "a: [b", "profile: x\nviolation: [v]\nvalidations:\n  v:\n    targetClass: nope.T\n    propertyConstraints:\n      nope.p:\n        minCount: 1\n",
 			"profile: x\nviolation: [v]\nvalidations:\n  v:\n    targetClass: doc.Unit\n    rego: |\n      $result = ((\n"} {
 			prof := prof
 			quiet(func() { pkg.CompileProfile(prof, false, nil) })
 			quiet(func() { pkg.Validate(prof, warmupData, true, nil) })
 		}
-		for _, data := range []string{"", "{", `{"@context": 5}`, `{"@context": {"a": {"@id": "http://a.ml/a", "@container": null}}, "a": 1}`, "{}", warmupData} {
+		for _, data := range []string{warmupLongGarbage, "", "{", `{"@context": 5}`, `{"@context": {"a": {"@id": "http://a.ml/a", "@container": null}}, "a": 1}`, "{}", warmupData} {
 			data := data
 			quiet(func() { pkg.Validate(warmupOk, data, false, nil) })
 			quiet(func() { pkg.ValidateWithConfiguration(warmupOk, data, false, nil, clockB, alt) })
